@@ -3,17 +3,22 @@ import gen_lender
 
 FAMILY = "lender"
 TRACE_SPEC = "Trace_Lender"
-PROPS = ["C20"]
+# C17: "a source that cannot be rewound: that error is returned" is decided for sux's own lenders by the flaky batch
+PROPS = ["C20", "C17"]
 
 
 def mc(prop, tier):
     q = tier == "quick"
+    if prop == "C17":
+        return []
     return [("MC_Lender", "MC_Lender_lines.cfg" if q else "MC_Lender_lines9.cfg",
              ["MC_Lender.Next", "MC_Lender.Nexts", "MC_Lender.Drain", "MC_Lender.Rewind"])]
 
 
 def exports(prop, tier):
     q = tier == "quick"
+    if prop == "C17":
+        return []
     if q:
         return [("tlc", "MC_Lender", "MC_Lender_d4.cfg"), ("tlc-nexts", "MC_Lender", "MC_Lender_d3n.cfg")]
     return [("tlc", "MC_Lender", "MC_Lender_d4.cfg"), ("tlc-d6", "MC_Lender", "MC_Lender_d6.cfg"),
@@ -22,6 +27,9 @@ def exports(prop, tier):
 
 def episodes(prop, tier, seed):
     q = tier == "quick"
+    if prop == "C17":
+        # (without Take: its rewind is the recorded finding of C20, not a question of error propagation)
+        return {"flaky": ([e for e in gen_lender.flaky_episodes(seed + 17, 150 if q else 3000) if not e["take"]], "verif")}
     out = {"rand": (gen_lender.small_episodes(seed, 1500 if q else 20000), "verif"),
            "big": (gen_lender.big_episodes(seed, 27 if q else 135), "verif"),
            "flaky": (gen_lender.flaky_episodes(seed, 150 if q else 3000), "verif"),
